@@ -1,6 +1,7 @@
 """C14 — checksums are BLAKE3-256 of the bytes, however they are read."""
 import json, os, random, subprocess, tempfile, time
 import vlib
+import s1
 from s1 import gen_content, ROOT_WARNING
 
 PROP = "C14"
@@ -94,6 +95,51 @@ def main(tier, replay=None):
             R.count("batch-%d-%s" % (rep, l), True)
             if o != bref[l]:
                 viol.append(dict(line=l, mode="concurrent batch", implementation=o, blake3_of_bytes=bref[l]))
+    # 3b. what COMMIT records (file artifact, skip-cache output, plain input): the BLAKE3 of exactly the bytes — for a file larger than
+    # 32 MiB whose size is not a multiple of the page size, and after a same-size replacement that carries an OLD timestamp
+    import yaml as _yaml, shutil as _sh
+    b3 = s1.B3(drv)
+    cdir = tempfile.mkdtemp(prefix="c14commit.", dir=vlib.scratch())
+    cenv = dict(os.environ, XDG_CONFIG_HOME=os.path.join(cdir, "xdg"), HOME=cdir, LC_ALL="C")
+    try:
+        for strat in ([], ["--copy"]):
+            root = os.path.join(cdir, "p" + ("c" if strat else "l"))
+            os.makedirs(root)
+            q = dict(cwd=root, env=cenv, stdout=subprocess.PIPE, stderr=subprocess.PIPE)
+            subprocess.run([dud, "init"], **q)
+            big = (bytes(range(256)) * 4099)[:1048573] * 33          # 34 602 909 bytes: > 32 MiB, not a multiple of 4096
+            files = {"big.bin": big, "skip.bin": b"s" * 70001, "in.bin": b"i" * 4097, "small.bin": b"x" * 5000}
+            for nm, data in files.items():
+                open(os.path.join(root, nm), "wb").write(data)
+            open(os.path.join(root, "s.yaml"), "w").write("command: 'true'\ninputs:\n  in.bin: {}\noutputs:\n  big.bin: {}\n  small.bin: {}\n  skip.bin:\n    skip-cache: true\n")
+            subprocess.run([dud, "stage", "add", "s.yaml"], **q)
+            want = {nm: b3.file(os.path.join(root, nm)) for nm in files}
+            p = subprocess.run([dud, "commit"] + strat, **q)
+            doc = _yaml.safe_load(open(os.path.join(root, "s.yaml"))) or {}
+            rec = {nm: ((doc.get("outputs") or {}).get(nm) or (doc.get("inputs") or {}).get(nm) or {}).get("checksum") for nm in files}
+            R.count("commit-records-%s" % ("copy" if strat else "link"), True)
+            for nm in files:
+                if rec[nm] != want[nm]:
+                    viol.append(dict(cli="dud commit %s: %s (%d bytes)" % (" ".join(strat), nm, len(files[nm])), implementation=rec[nm], blake3_of_bytes=want[nm],
+                                     exit=p.returncode))
+            if strat:
+                # same size, other bytes, old timestamp (mv / cp -p / rsync -t / tar x), committed again
+                path = os.path.join(root, "small.bin")
+                os.unlink(path)
+                open(path, "wb").write(b"y" * 5000)
+                os.utime(path, (1577836800, 1577836800))
+                want2 = b3.file(path)
+                p = subprocess.run([dud, "commit"] + strat, **q)
+                doc = _yaml.safe_load(open(os.path.join(root, "s.yaml"))) or {}
+                got2 = ((doc.get("outputs") or {}).get("small.bin") or {}).get("checksum")
+                R.count("recommit-same-size-old-mtime", True)
+                if got2 != want2:
+                    viol.append(dict(cli="dud commit --copy after small.bin was replaced by other bytes of the same size with an old timestamp",
+                                     implementation=got2, blake3_of_bytes=want2, exit=p.returncode))
+            _sh.rmtree(root, ignore_errors=True)
+    finally:
+        b3.close()
+        _sh.rmtree(cdir, ignore_errors=True)
     # 4. the CLI: files and a pipe written in pieces
     tmp = tempfile.mkdtemp(prefix="c14.", dir=vlib.scratch())
     env = dict(os.environ, XDG_CONFIG_HOME=tmp, HOME=tmp)
